@@ -148,12 +148,15 @@ type cssResult struct {
 }
 
 // renderCSS runs the real pipeline (must be called under Guard).
-func renderCSS(decls string) cssResult {
+func renderCSS(decls string) cssResult { return renderHTML(cssDoc(decls)) }
+
+// renderHTML renders one whole document and observes the (first) red fill.
+func renderHTML(src string) cssResult {
 	cfg, err := fonts()
 	if err != nil {
 		panic(err)
 	}
-	doc, err := tree.NewHTML(utils.InputString(cssDoc(decls)), "", nil, "")
+	doc, err := tree.NewHTML(utils.InputString(src), "", nil, "")
 	if err != nil {
 		panic(err)
 	}
